@@ -42,6 +42,9 @@ RULE = ("cases = (valid DTM / NTM / MNTM, input, number n of next() calls); corp
         "nondeterministic, 1–3 tapes, adversarial state-name pools, MNTM transition lists with a repeated entry "
         "and given as tuples, inputs with a symbol outside the tape alphabet), a two-tape guess-and-verify machine "
         "whose breadth-first frontier exceeds 8192 pending configurations (real run vs. reference only) "
+        ", long tapes (inputs of 62–300 symbols: zig-zag programs sweeping to the far right, off the right end, back "
+        "over the whole tape and off the left end, as DTM / NTM (also branching) / 1-tape MNTM, a 2-tape copy-and-return "
+        "machine, shuttles that grow a 50–62-cell tape past 64 cells at both ends) "
         "and mutated invalid definitions for validate(); a case is "
         "non-trivial when at least 3 configurations are yielded; distinct = distinct (kind, definition, "
         "input, n)")
